@@ -17,8 +17,7 @@
 (* operators judge TLC-enumerated behaviours (MC_C04) and recorded ones (Trace_C04).      *)
 EXTENDS GlomData
 
-CONSTANTS Fix,       \* BOOLEAN: apply the candidate repairs to the transcribed mechanism
-          Mutant     \* "none" or the name of a deliberately wrong mechanism variant
+CONSTANT Mutant      \* "none" or the name of a deliberately wrong mechanism variant
 
 InSeq(e, sq) == \E j \in 1..Len(sq) : sq[j] = e
 Meets(sa, sb) == \E j \in 1..Len(sa) : InSeq(sa[j], sb)
@@ -181,29 +180,35 @@ TopBranch(kw, a, leafid) ==
 DoSkip(kw, a)  == TopValue(MechDefault(kw))
 DoBase(a)      == a
 DoDebug(a)     == a
-\* copy.copy(e) re-creates the object through cls(*args) unless the class defines __copy__
-DoCopy(fix, a) ==
+\* try: err = copy.copy(e)          (re-creates the object through cls(*args) unless __copy__)
+\*      if err.args != e.args: err = e
+\* except Exception: err = e
+\* Mutants "copy_unguarded" / "ctor_rerun" are the mechanism before commits 113d6db / 5d8773a.
+DoCopy(a) ==
   CASE a.cls.cp = "ok"      -> [a EXCEPT !.id = "copy"]
-    [] a.cls.cp = "rewrite" -> IF fix THEN a ELSE [a EXCEPT !.id = "copy", !.args = "diff"]
-    [] a.cls.cp = "fail"    -> IF fix THEN a ELSE [Raised(TypeErrorCls, "new") EXCEPT !.args = "diff"]
+    [] a.cls.cp = "rewrite" -> IF Mutant = "ctor_rerun" THEN [a EXCEPT !.id = "copy", !.args = "diff"] ELSE a
+    [] a.cls.cp = "fail"    -> IF Mutant = "copy_unguarded"
+                               THEN [Raised(TypeErrorCls, "new") EXCEPT !.args = "diff"] ELSE a
 \* GlomError.wrap: wrapper = type(.., (exc_type, GlomError), {})(*exc.args);
+\*                 if wrapper.args != exc.args: return exc
 \*                 except Exception: return exc      -> `raise` re-raises the original
-DoWrap(fix, a) ==
+DoWrap(a) ==
   LET wc == IF Mutant = "wrap_glom_only"
             THEN [a.cls EXCEPT !.anc = <<"GlomError.wrap">> \o GE, !.glom = TRUE] ELSE WrapCls(a.cls) IN
   CASE a.cls.rec = "same"    -> [a EXCEPT !.id = "wrap", !.w = TRUE, !.cls = wc]
-    [] a.cls.rec = "rewrite" -> IF fix THEN a ELSE [a EXCEPT !.id = "wrap", !.w = TRUE, !.cls = wc, !.args = "diff"]
+    [] a.cls.rec = "rewrite" -> IF Mutant = "ctor_rerun"
+                                THEN [a EXCEPT !.id = "wrap", !.w = TRUE, !.cls = wc, !.args = "diff"] ELSE a
     [] a.cls.rec = "fail"    -> IF Mutant = "wrap_no_fallback"
                                 THEN [Raised(TypeErrorCls, "new") EXCEPT !.args = "diff"] ELSE a
 
-TopOutcome(fix, kw, a, leafid) ==
+TopOutcome(kw, a, leafid) ==
   LET b == TopBranch(kw, a, leafid) IN
   CASE b = "return" -> a
     [] b = "skip"   -> DoSkip(kw, a)
     [] b = "base"   -> DoBase(a)
     [] b = "debug"  -> DoDebug(a)
-    [] b = "copy"   -> DoCopy(fix, a)
-    [] b = "wrap"   -> DoWrap(fix, a)
+    [] b = "copy"   -> DoCopy(a)
+    [] b = "wrap"   -> DoWrap(a)
 
 \* ======================================================================================
 \* 4. LAWS  (from the property statement and glom()'s documentation; a = what reached the
@@ -304,8 +309,8 @@ TopReturn(k) == Top(k, "return", "TopReturn", x)
 TopSkip(k)   == Top(k, "skip", "TopSkip", DoSkip(k, x))
 TopBase(k)   == Top(k, "base", "TopBase", DoBase(x))
 TopDebug(k)  == Top(k, "debug", "TopDebug", DoDebug(x))
-TopCopy(k)   == Top(k, "copy", "TopCopy", DoCopy(Fix, x))
-TopWrap(k)   == Top(k, "wrap", "TopWrap", DoWrap(Fix, x))
+TopCopy(k)   == Top(k, "copy", "TopCopy", DoCopy(x))
+TopWrap(k)   == Top(k, "wrap", "TopWrap", DoWrap(x))
 TopLevel(k)  == TopReturn(k) \/ TopSkip(k) \/ TopBase(k) \/ TopDebug(k) \/ TopCopy(k) \/ TopWrap(k)
 
 Travel == Pass \/ CatchCoalesce \/ CatchOr \/ CatchAnd \/ CatchNot \/ CatchMatchDefault
